@@ -115,6 +115,14 @@ Definition c07_auto_pred (args : list val) : bool :=
       let '(sc, au, pa, qu, fr) := rfc_split (spec_clean s) in
       match o with
       | WList _ => vstr_is (nthv i_scheme o) sc && recompose_ok o && authority_split_ok o
+                   (* the port reported is the value of the port text WRITTEN in the input's
+                      authority, which is empty or made of ASCII digits (anything else is rejected) *)
+                   && (let '(_, _, _, pt) := spec_auth_split au in
+                       match nthv i_explicit_port o, digits_value pt with
+                       | WNat p, Some (Some v) => p =? v
+                       | WNone, Some None => true
+                       | _, _ => false
+                       end)
       | WErr ValueError => true
       | _ => false
       end
